@@ -61,6 +61,9 @@ def eval_parse_tree(root, env=None):
         raise EvalError("Attempted to divide by zero.")
     except OverflowError:
         raise EvalError("Overflow, numerical result out of range!")
+    except MemoryError:
+        # 1..10^19: the list cannot even be allocated.
+        raise EvalError("Out of memory, the result is too large!")
 
 def eval_node(node, env):
     return eval_based_on_mode(
